@@ -115,7 +115,7 @@ func Preset(prop string, adversarial bool, r *scen.Rand) *Params {
 		p.NonTestNames = true
 		p.Alpha = Alpha{Plain: 9, Framing: 1, Structured: 1}
 		p.Envs = allEnvs
-		p.EditKinds = []string{"value", "removecall", "removetest", "addcall"}
+		p.EditKinds = []string{"value", "removecall", "removetest", "addcall", "retarget"}
 		p.EditValueP = 0.1
 		p.Counts = []int{1, 2, 3}
 		p.RunP = 0.4
@@ -141,7 +141,7 @@ func Preset(prop string, adversarial bool, r *scen.Rand) *Params {
 		p.NonTestNames = true
 		p.Alpha = Alpha{Plain: 10, Framing: 0, Structured: 1}
 		p.Envs = allEnvs
-		p.EditKinds = []string{"removecall", "removetest", "removesub", "skip", "addcall", "addtest"}
+		p.EditKinds = []string{"removecall", "removetest", "removesub", "skip", "addcall", "addtest", "retarget"}
 		p.FaultP = 0.1 // a directory that cannot be listed excuses that directory only
 		p.Counts = []int{1, 2, 3}
 		p.CleanP = 1
@@ -155,7 +155,7 @@ func Preset(prop string, adversarial bool, r *scen.Rand) *Params {
 	case "C10":
 		p.Alpha = Alpha{Plain: 6, Framing: 4, Structured: 1}
 		p.Envs = []map[string]string{envOff, envClean, envUpd}
-		p.EditKinds = []string{"removecall", "removetest", "shuffle", "skip"}
+		p.EditKinds = []string{"removecall", "removetest", "shuffle", "skip", "retarget"}
 		p.RunP = 0.25
 		p.RecordTasksP = 0.6
 		p.CleanP = 1
@@ -203,8 +203,9 @@ func Preset(prop string, adversarial bool, r *scen.Rand) *Params {
 		p.Alpha = Alpha{Plain: 8, Framing: 2, Structured: 2}
 		p.Envs = allEnvs
 		p.UpdateOpt = 0.3
-		p.EditKinds = []string{"value", "removecall", "addcall", "skip"}
+		p.EditKinds = []string{"value", "removecall", "addcall", "skip", "retarget"}
 		p.EditValueP = 0.4
+		p.Counts = []int{1, 1, 2, 3}
 		p.MaxTests = 6
 		p.MaxCalls = 8
 		p.InvalidP = 0.15
